@@ -181,6 +181,80 @@ func extraC01(r *Run) {
 				r.Violate(tp.name+"/content/stream-altered", "each equal to the message sent, in order; equal sequences on success", sprintf("sent %d, got %d (equal=%v)", len(sent), len(got), okAll), c, "")
 			}
 		}
+		// a receiver that re-uses ONE message value for every RecvMsg must still see each message as sent:
+		// in particular an empty (zero-length) message after a non-empty one
+		for i := 0; i < r.Budget(6, 60); i++ {
+			var seq []*Msg
+			for j := 0; j < 2+rng.Intn(4); j++ {
+				if rng.Chance(45) {
+					seq = append(seq, &Msg{})
+				} else {
+					seq = append(seq, richMsg(rng, rng.Intn(64)))
+				}
+			}
+			var handlerSaw []*Msg
+			var hmu sync.Mutex
+			svrR := &scriptServer{}
+			svrR.bidi = func(s grpchantesting.TestService_BidiStreamServer) error {
+				var m Msg // re-used for every receive
+				for {
+					if err := s.RecvMsg(&m); err != nil {
+						break
+					}
+					hmu.Lock()
+					handlerSaw = append(handlerSaw, proto.Clone(&m).(*Msg))
+					hmu.Unlock()
+				}
+				for _, x := range seq {
+					if err := s.Send(x); err != nil {
+						return err
+					}
+				}
+				return nil
+			}
+			chR, stopR := tp.mk(svrR)
+			cs, err := chR.NewStream(context.Background(), descBidi, mBidi)
+			c := map[string]interface{}{"transport": tp.name, "op": "reused-destination", "messages": len(seq)}
+			if err != nil {
+				r.Violate(tp.name+"/content/stream-failed", "messages are delivered", err.Error(), c, "")
+				stopR()
+				continue
+			}
+			for _, x := range seq {
+				cs.SendMsg(x)
+			}
+			cs.CloseSend()
+			var clientSaw []*Msg
+			var m Msg // re-used for every receive
+			for {
+				if err := cs.RecvMsg(&m); err != nil {
+					break
+				}
+				clientSaw = append(clientSaw, proto.Clone(&m).(*Msg))
+			}
+			stopR()
+			r.Eval(fmt.Sprint("reuse", tp.name, i), true)
+			r.Count("reused-destination:" + tp.name)
+			same := func(got []*Msg) (bool, int) {
+				if len(got) != len(seq) {
+					return false, -1
+				}
+				for j := range got {
+					if !proto.Equal(got[j], seq[j]) {
+						return false, j
+					}
+				}
+				return true, 0
+			}
+			hmu.Lock()
+			if ok, at := same(handlerSaw); !ok {
+				r.Violate(tp.name+"/content/request-altered-reused-destination", "each message a receiver obtains is equal to the message sent (a receive overwrites its destination)", sprintf("handler re-using one message value: %d sent, %d received, first difference at %d", len(seq), len(handlerSaw), at), c, "")
+			}
+			hmu.Unlock()
+			if ok, at := same(clientSaw); !ok {
+				r.Violate(tp.name+"/content/response-altered-reused-destination", "each message a receiver obtains is equal to the message sent (a receive overwrites its destination)", sprintf("client re-using one message value: %d sent, %d received, first difference at %d", len(seq), len(clientSaw), at), c, "")
+			}
+		}
 		// isolation: concurrent calls on one channel, every message tagged with its call
 		nCalls := r.Budget(8, 32)
 		var wg sync.WaitGroup
@@ -308,7 +382,7 @@ func validUTF8(s string) bool {
 func extraC02(r *Run) {
 	rng := r.Rng.Fork("extraC02")
 	msgs := statusStrings()
-	codeSet := []codes.Code{1, 2, 3, 4, 5, 6, 7, 8, 9, 10, 11, 12, 13, 14, 15, 16, 17, 99, 1 << 20}
+	codeSet := []codes.Code{1, 2, 3, 4, 5, 6, 7, 8, 9, 10, 11, 12, 13, 14, 15, 16, 17, 99, 1 << 20, 1 << 31, 1<<32 - 1, 1<<32 - 2}
 	mkStatus := func() *status.Status {
 		p := &spb.Status{Code: int32(codeSet[rng.Intn(len(codeSet))]), Message: msgs[rng.Intn(len(msgs))]}
 		for i := 0; i < rng.Intn(3); i++ {
